@@ -299,3 +299,28 @@ CHECKS["C13"] = dict(
         level_note="Trusts determinism across instances (C14) and the harness's transcription of the documented conversion formulas.",
     ),
 )
+
+CHECKS["C18"] = dict(
+    harnesses={"pbt": dict(src="c18_settings.cpp", cfg="asan", kind="rc")},
+    quick=[dict(name="pbt", harness="pbt", workers=8, args=["--n", "700"])],
+    thorough=[dict(name="pbt", harness="pbt", workers=16, args=["--n", "40000"], timeout=10800)],
+    rule="rapidcheck histories of setters with in-range, boundary (0,1,100,101,-1,INT_MIN/MAX) and invalid arguments (chip count, emulator id -2..40, LFO enable/frequency, chip type, "
+         "volume model, allocation mode, arpeggio, device id 0..16/255, boolean options, five hook kinds), opn2_reset, valid/corrupted bank images (two banks with different LFO/chip "
+         "defaults), valid/corrupted music images, invalid bank ids / track / channel numbers, notes. After EVERY call the complete getter vector (public getters + device id, "
+         "hook slots, boolean options, loaded-bank fingerprint read from the instance) must equal the reference model; at the end a fixed phrase is rendered on the instance and on a "
+         "twin that received the same history WITHOUT the rejected calls: register stream and PCM must be identical. Non-trivial = a rejected call followed by reset/switch/load, or "
+         "an accepted setter followed by >=2 of them; distinct by FNV-64 of the history.",
+    assumptions=[
+        "void setters are modelled only for documented values; out-of-range chip type / volume model numbers are treated as rejected calls",
+        "getNumChipsObtained is not asserted once the VGM dumper (which caps at 2 chips) has been selected in a history",
+        "loop hooks are not asserted while the VGM dumper is the active emulator (it installs its own)",
+        "after a rejected music file both the instance and its twin load the same valid file (the statement's 'able to load a valid file next') before comparison continues",
+    ],
+    min_nontrivial={"quick": 500, "thorough": 5000},
+    manifest=dict(
+        technique="model-based property testing (reference model of requested settings checked after every call) + differential twin probe of rendered audio and register stream",
+        level_text="A model of the requested configuration predicts every getter after every generated call; audible equivalence after rejected calls is judged differentially "
+                   "against a twin instance that never saw them.",
+        level_note="Trusts the model's reading of 'bank default' semantics and the internal reads used where no public getter exists.",
+    ),
+)
